@@ -96,9 +96,11 @@ static void all_helpers_here(const vector<string>& strs, const string& alphabet,
   // one batch per (function, parameters)
   // max_splits: 0 (unlimited), small caps, and caps far beyond any piece count up to SIZE_MAX (logged capped at 10^9:
   // only the comparison with the number of delimiters matters)
-  static const size_t CAPS[] = {0, 1, 2, 3, 1000, (size_t)1 << 60, SIZE_MAX / 2, SIZE_MAX - 1, SIZE_MAX};
+  static const size_t CAPS[] = {0, 1, 2, 3, 1000, (size_t)1 << 60, SIZE_MAX / 2, SIZE_MAX - 1, SIZE_MAX,
+      // caps whose low 32 (16) bits are small: a cap is a 64-bit count
+      ((size_t)1 << 32) + 1, ((size_t)1 << 32) + 2, ((size_t)1 << 33) + 1, ((size_t)1 << 40) + 3, ((size_t)1 << 32), 65536 + 1, 65536 + 2};
   for (char d : alphabet)
-    for (size_t mi = 0; mi < (big ? 4 : 9); mi++) {
+    for (size_t mi = 0; mi < (big ? 4 : 16); mi++) {
       size_t m = CAPS[mi];
       string p = "{\"d\":" + to_string((unsigned char)d) + ",\"max\":" + to_string(min<size_t>(m, 1000000000)) + "}";
       Batch b1("split", p), b2("splitjoin", p), b3("splitctx", p), b4("splitctxjoin", p);
